@@ -477,6 +477,8 @@ def gen_history(rng, length, p_unguarded=0.12):
             b = rng.random() < 0.4
             if b and not unguarded and R._is_field_buf(A[a]):
                 b = False
+            if b and A[a].ndim and A[a].strides[0] == 0:
+                b = False     # stride-0 broadcast results (one memory cell behind n entries) are not re-enabled: outside the model
             op.update(a=a, b=b)
         elif k == "wrap":
             op.update(a=pick_arr())
